@@ -325,8 +325,7 @@ class Gen:
         return {'op': 'setreg', 'reg': reg, 'e': e}
 
     def stmt_units(self, scope):
-        if self.time_is_pattern:
-            return self.stmt_setreg(scope)
+        # (also while `time` holds a time-of-day pattern: the pattern has no unit and stays what it is)
         mode = self.pick(['logical', 'raw', 'rgb'])
         if mode != self.mode:
             for r in A.REGS:
